@@ -13,7 +13,7 @@ func init() { register("C16", checkC16) }
 
 func checkC16(c *Ctx) {
 	r := c.R
-	r.Explanation = "Decides structural necessary conditions of C16 on the three stream wrappers of package streams, on the SSA of every run. Each exported entry point (Read, Close, WriteTo) is analysed on an INLINED VIEW: the control-flow graph of the method with every statically resolved same-package callee (helper methods, functions, closures) spliced in at its call site and deferred calls replayed at the exits, so a step counts wherever it is written; facts are branch conditions on paths (dominance, per-predecessor splitting of joins, short-circuit values, per-return splitting of helper results), and the types/fields are found by ROLE (the type LimitReadCloser returns; its interface field with Read+Close, its integer budget field, its bool flag; the []io.Reader field of MultiReaderCloser; the reader / writer interface fields of TeeReadCloser), not by unexported names. " +
+	r.Explanation = "Decides structural necessary conditions of C16 on the three stream wrappers of package streams, on the SSA of every run. Each exported entry point (Read, Close, WriteTo) is analysed on an INLINED VIEW: the control-flow graph of the method with every statically resolved same-package callee (helper methods, functions, closures) spliced in at its call site — including function values whose target is known (a closure or method value passed as a callback such as withLock(func(){…}), a local assigned once, a func-typed field assigned once in the package, bound-method wrappers) — and deferred calls replayed at the exits, branches on values that are constant in their context pruned, so a step counts wherever it is written; facts are branch conditions on paths (dominance, per-predecessor splitting of joins, short-circuit values, per-return splitting of helper results), and the types/fields are found by ROLE (the type LimitReadCloser returns; its interface field with Read+Close, its integer budget field, its bool flag; the []io.Reader field of MultiReaderCloser; the reader / writer interface fields of TeeReadCloser), not by unexported names, also when the fields are grouped into nested structs or a nil test is replaced by a flag; a closing loop over a local literal slice ([]any{r, w}) is understood. " +
 		"LimitReadCloser's Read: (V1) on every path from the source read to a return the budget N was decreased by the source's count (or the count is known <= 0), and within the limit the source's count and error are passed through unchanged; " +
 		"(V2-pre) before reading, ErrStreamTooLarge is returned only under N<0 (or source==nil) and io.EOF only under the closed flag; (V2-cap) the buffer handed to the source is capped at N+1; (V2-hide) on the over-limit side the look-ahead byte is hidden (count-1); (V2-err) on the over-limit side the returned error is ErrStreamTooLarge or a source error proven != io.EOF and != nil — never the source's io.EOF; " +
 		"(V2-close) every over-limit return has closed the source; (V4) the source's Close() is only reached with the flag known false, the flag is set on that path, and Close() closes the source unless already closed. " +
@@ -134,14 +134,43 @@ func c16Limit(c *Ctx) {
 		b, ok := t.Underlying().(*types.Basic)
 		return ok && b.Info()&types.IsInteger != 0
 	})
-	fClosed := c16FieldByType(named, "closed flag", "closed", func(t types.Type) bool {
-		b, ok := t.Underlying().(*types.Basic)
-		return ok && b.Kind() == types.Bool
-	})
 	read := c16Method(p, named, "Read")
 	closeFn := c16Method(p, named, "Close")
 	if read == nil || closeFn == nil {
 		undecided("the type returned by LimitReadCloser has no Read/Close method body")
+	}
+	// the closed flag: the bool field; if there are several (e.g. a "has source"
+	// flag next to it), the one that Close() sets to true
+	setInClose := map[string]bool{}
+	{
+		gc0 := c16Build(p, closeFn)
+		gc0.All(func(n c16N, b *c16B) {
+			if st, ok := n.In.(*ssa.Store); ok {
+				if fa, ok := st.Addr.(*ssa.FieldAddr); ok {
+					if k, ok := gc0.Val(c16V{st.Val, n.Ctx}).V.(*ssa.Const); ok && k.Value != nil && k.Value.String() == "true" {
+						setInClose[fieldIDOfAddr(fa).Field] = true
+					}
+				}
+			}
+		})
+	}
+	nBool := 0
+	isBool := func(t types.Type) bool {
+		b, ok := t.Underlying().(*types.Basic)
+		return ok && b.Kind() == types.Bool
+	}
+	c16EachField(named, func(name string, t types.Type) {
+		if isBool(t) {
+			nBool++
+		}
+	})
+	var fClosed FieldID
+	if nBool > 1 && len(setInClose) == 1 {
+		for name := range setInClose {
+			fClosed = c16FieldByTypeName(named, "closed flag", name, isBool)
+		}
+	} else {
+		fClosed = c16FieldByType(named, "closed flag", "closed", isBool)
 	}
 	const rname = "streams.LimitReadCloser.Read"
 	g := c16Build(p, read)
@@ -603,11 +632,24 @@ func c16Limit(c *Ctx) {
 							ok = true
 						}
 					}
+					// … or the return is guarded by a fact about another field of the
+					// reader (today: the source being nil; a "no source" flag is the same
+					// thing in value+flag form). Only a guard on the budget itself can fail a
+					// source of at most N bytes that is actually there.
+					isOtherField := func(v c16V) bool {
+						v = g.Val(v)
+						u, isLoad := v.V.(*ssa.UnOp)
+						if !isLoad || u.Op != token.MUL {
+							return false
+						}
+						fa, isFA := u.X.(*ssa.FieldAddr)
+						return isFA && fieldIDOfAddr(fa) != fN
+					}
 					for _, c := range lf.Conds {
-						if cmp, isCmp := g.Cmp(c); isCmp && cmp.Op == token.EQL {
-							if (g.IsFieldLoad(cmp.X, fR) && g.IsNil(cmp.Y)) || (g.IsFieldLoad(cmp.Y, fR) && g.IsNil(cmp.X)) {
-								ok = true
-							}
+						if cmp, isCmp := g.Cmp(c); isCmp && (isOtherField(cmp.X) || isOtherField(cmp.Y)) {
+							ok = true
+						} else if cv, _ := g.BoolCond(c); cv.V != nil && isOtherField(cv) {
+							ok = true
 						}
 					}
 					if !ok {
@@ -628,7 +670,7 @@ func c16Limit(c *Ctx) {
 			}
 		}
 		if n > 0 {
-			c16Check(r, g, why == "", "C16.V2-pre", rname+" early returns", p.Pos(c16PosOr(wpos, read.Pos())), "before the read, ErrStreamTooLarge is returned only under N<0 (or R==nil) and io.EOF only under closed", why)
+			c16Check(r, g, why == "", "C16.V2-pre", rname+" early returns", p.Pos(c16PosOr(wpos, read.Pos())), "before the read, ErrStreamTooLarge is returned only under N<0 (or a guard on another field: no source) and io.EOF only under closed", why)
 		} else {
 			r.Trivial("C16.V2-pre", rname+" early returns", p.Pos(read.Pos()), "no early ErrStreamTooLarge/EOF return")
 		}
